@@ -43,7 +43,9 @@ RULE = ('workbooks generated from one PRNG: 3-8 sites of every declared type (RO
         'unknown city, duplicate or reversed-duplicate link, unreferenced site, Eqpt row for an unknown site or link, '
         'duplicate Eqpt row, ILA with two Eqpt rows); Service sheets with every optional cell present/absent, numeric ids, '
         'unknown transceivers/modes, missing spacing, loose/strict routes naming ROADM, ILA and FUSED sites, unknown sites, '
-        'transceivers, several disjointness entries; plus the workbooks shipped with GNPy (.xls and .xlsx). A case is '
+        'transceivers, several disjointness entries, and (45 % of the service sheets) clean rows whose \'disjoint from\' '
+        'entries interlock: cycles r1/r2 r2/r3 r3/r1, chains of 3-5 rows, a/b c/d then a/c, rows listing several ids, '
+        'forward references, symmetric duplicates; plus the workbooks shipped with GNPy (.xls and .xlsx). A case is '
         'non-trivial when the workbook has an ILA/FUSED site or an Eqpt/Roadms row or violates a rule or has services; '
         'distinct = distinct canonical JSON of the case')
 MODEL_SCOPE = ('modelled: Node/Link/Eqpt/Roadm row construction with their defaulting rules, the rejections of parse_excel '
@@ -434,7 +436,69 @@ def violate(rng, tab, cities, types):
     return v
 
 
+def gen_interlocked_services(rng, cities, types):
+    """clean rows (every row converts) whose 'disjoint from' entries interlock: cycles r1/r2, r2/r3, r3/r1, chains of 3-5
+    rows, a/b + c/d then a/c, rows listing several ids, forward references, symmetric duplicates"""
+    roadm_c = [c for c, t in zip(cities, types) if t == 'ROADM']
+    n = rng.randint(3, 6)
+    style = rng.choice(['int', 'str', 'name'])
+    ids = [i if style == 'int' else (str(i) if style == 'str' else f'r{i}') for i in range(n)]
+    pattern = rng.choice(['cycle', 'chain', 'pairs-then-cross', 'multi', 'random', 'symmetric'])
+    dj = {i: [] for i in range(n)}
+    if pattern == 'cycle':
+        k = rng.randint(3, n)
+        for i in range(k):
+            dj[i] = [(i + 1) % k]
+    elif pattern == 'chain':
+        for i in range(n - 1):
+            dj[i] = [i + 1]
+        if rng.random() < 0.5:
+            dj[n - 1] = [0]
+    elif pattern == 'pairs-then-cross':
+        # a/b, c/d, then a row that crosses the two groups (a/c); with three rows: a/b, b/c, c/a
+        dj[0] = [1]
+        if n >= 4:
+            dj[2] = [3]
+            x, y = rng.choice([(1, 3), (3, 1), (1, 2), (3, 0)])
+            dj[x] = [y]
+        else:
+            dj[1] = [2]
+            dj[2] = [0]
+    elif pattern == 'multi':
+        for i in range(n):
+            if rng.random() < 0.7:
+                others = [j for j in range(n) if j != i]
+                dj[i] = rng.sample(others, rng.randint(1, min(3, len(others))))
+    elif pattern == 'symmetric':
+        dj[0] = [1]
+        dj[1] = [0]
+        if n > 2:
+            dj[2] = [rng.choice([0, 1])]
+    else:
+        for i in range(n):
+            if rng.random() < 0.6:
+                dj[i] = [rng.choice([j for j in range(n) if j != i])]
+    rows = []
+    for i in range(n):
+        if len(roadm_c) >= 2:
+            s, d = rng.sample(roadm_c, 2)
+        else:
+            s, d = roadm_c[0], roadm_c[0]
+        r = {'request_id': ids[i], 'source': s, 'destination': d, 'trx_type': 'Voyager', 'mode': rng.choice([None, 'mode 1']),
+             'spacing': rng.choice([50, 75]), 'power': rng.choice([None, 0, 1]), 'nb_channel': rng.choice([None, 40]),
+             'path_bandwidth': rng.choice([100, 200])}
+        if dj[i]:
+            names = [ids[j] for j in dj[i]]
+            r['disjoint_from'] = names[0] if (len(names) == 1 and rng.random() < 0.5) else ' | '.join(str(x) for x in names)
+        rows.append(r)
+    if rng.random() < 0.3:
+        rng.shuffle(rows)
+    return rows
+
+
 def gen_services(rng, cities, types):
+    if rng.random() < 0.45:
+        return gen_interlocked_services(rng, cities, types)
     roadm_c = [c for c, t in zip(cities, types) if t == 'ROADM']
     rows = []
     for i in range(rng.randint(1, 5)):
@@ -447,8 +511,11 @@ def gen_services(rng, cities, types):
         r = {'request_id': rng.choice([i, str(i), float(i), f'r{i}']), 'source': s, 'destination': d, 'trx_type': trx, 'mode': mode,
              'spacing': rng.choice([50, 75, 62.5, 50.0, 100]), 'power': rng.choice([None, 0, 1, -1.5, 2.25]),
              'nb_channel': rng.choice([None, 40, 80, 76.0]), 'path_bandwidth': rng.choice([None, 100, 200, 62.5, 0])}
-        if rng.random() < 0.35 and i > 0:
-            r['disjoint_from'] = rng.choice([str(rng.randrange(i)), rng.randrange(i), ' | '.join(str(x) for x in range(i))])
+        if rng.random() < 0.35:
+            # earlier and LATER rows may be named (the sheet is a set of requests, not a sequence)
+            others = [x for x in range(5) if x != i]
+            r['disjoint_from'] = rng.choice([str(rng.choice(others)), rng.choice(others),
+                                             ' | '.join(str(x) for x in rng.sample(others, rng.randint(2, 3)))])
         if rng.random() < 0.5:
             pool = list(cities) + [f'roadm {c}' for c in roadm_c] + ['Nowhere', f'trx {s}', f'trx {d}']
             k = rng.randint(1, 4)
@@ -873,8 +940,34 @@ def run_services(res, case, drv, path, net):
         if len(data['path-request']) != len(tab['services']):
             res.fail(f'services: {len(tab["services"])} rows gave {len(data["path-request"])} requests')
         want_sync = [s for s in tab['services'] if cell(s.get('disjoint_from')) is not None]
-        if len(data.get('synchronization', [])) != len(want_sync):
-            res.fail(f'synchronisation: {len(want_sync)} rows name disjoint requests, {len(data.get("synchronization", []))} vectors produced')
+        groups = [set(v['svec']['request-id-number']) for v in data.get('synchronization', [])]
+
+        def sid(x):
+            return x if isinstance(x, str) else str(int(x))
+        npairs = 0
+        for s_row in want_sync:
+            rid = sid(cell(s_row['request_id']))
+            dj = cell(s_row['disjoint_from'])
+            for other in (dj.split(' | ') if isinstance(dj, str) else [sid(dj)]):
+                npairs += 1
+                if not any(rid in g and other in g for g in groups):
+                    res.fail(f'synchronisation: row {rid} is declared disjoint from {other} but no synchronisation vector '
+                             f'contains both (vectors: {[sorted(g) for g in groups]})')
+        # one group per row with a non-empty 'disjoint from' cell, naming the row's request first
+        if len(groups) != len(want_sync):
+            res.fail(f'synchronisation: {len(want_sync)} rows name disjoint requests, {len(groups)} vectors produced')
+        covered = set()
+        interlocked = 0
+        for s_row in want_sync:
+            rid = sid(cell(s_row['request_id']))
+            dj = cell(s_row['disjoint_from'])
+            mine = {rid} | set(dj.split(' | ') if isinstance(dj, str) else [sid(dj)])
+            if covered and mine <= covered:
+                interlocked += 1
+            covered |= mine
+        res.stats['disjoint_pairs_checked'] += npairs
+        res.stats['rows_covered_by_union_of_earlier_groups'] += interlocked
+        res.stats['sheets_with_interlocking_disjointness'] += int(interlocked > 0)
         uids = {n.uid for n in net.nodes()}
         for r in data['path-request']:
             for h in r.get('explicit-route-objects', {}).get('route-object-include-exclude', []):
